@@ -14,9 +14,22 @@ from fractions import Fraction as F
 from common import frac_str, parse_frac
 
 DOMAINS = [(F(0), F(1)), (F(-1), F(1)), (F(0), F(2)), (F(1, 2), F(1)), (F(-3), F(6)), (F(1, 2), F(2)), (F(2), F(5, 2)), (F(-2), F(-1))]
+# boxes far from the origin relative to their width (|a|/(b-a) between 1e2 and 2e4, both signs), dyadic ends
+FAR_DOMAINS = [(F(1000), F(1001)), (F(-2001), F(-2000)), (F(256), F(258)), (F(-4096), F(-8191, 2)), (F(500), F(504)),
+               (F(8192), F(8193)), (F(-1024), F(-1023)), (F(3000), F(3000) + F(1, 4)), (F(-640), F(-636))]
+
+
+def pick_domain(rng, pfar=0.15):
+    return rng.choice(FAR_DOMAINS) if rng.random() < pfar else rng.choice(DOMAINS)
+
+
+def is_far(a, b):
+    return max(abs(a), abs(b)) >= 64 * (b - a)
+
+
 RATIOS = [F(1, 3), F(1, 4), F(2, 5), F(3, 5), F(2, 3), F(3, 4), F(3, 7), F(1, 2)]
 TOL = 1e-9          # float comparisons (DEV.md); dyadic inputs with power-of-two widths are compared exactly
-TOL_HIER = 1e-7     # hierarchical / moment-matching families: an n x n solve sits between input and output
+TOL_HIER = 1e-9     # hierarchical / moment-matching families: an n x n solve sits between input and output
 
 
 # ------------------------------------------------------------------------------------------------ generators
@@ -138,9 +151,10 @@ def make_functions():
             return r
 
     class Mono(Function):
-        def __init__(self, ks):
+        def __init__(self, ks, shifts=None):
             super().__init__()
             self.ks = ks
+            self.shifts = shifts if shifts is not None else [0.0] * len(ks)     # (x - shift)^k: keeps the test sensitive far from 0
 
         def output_length(self):
             return 1
@@ -148,7 +162,7 @@ def make_functions():
         def eval(self, c):
             r = 1.0
             for d, k in enumerate(self.ks):
-                r *= float(c[d]) ** k
+                r *= (float(c[d]) - self.shifts[d]) ** k
             return r
 
     return Table, Mono
@@ -160,8 +174,10 @@ def scalar(v):
 
 
 # ------------------------------------------------------------------------------------------------ trapezoid case
-def run_trap(ctx, drv, case):
-    """one 1-D trapezoid case; returns ok"""
+def run_trap(ctx, drv, case, grid=None, report=None):
+    """one 1-D trapezoid case; returns ok.  `grid`: an already used GlobalTrapezoidalGrid object to be re-used for this
+    grid (object history); `report`: the case to store in replays (the whole history)"""
+    rc = report if report is not None else case
     import numpy as np
     from sparseSpACE.Grid import GlobalTrapezoidalGrid
     Table, Mono = make_functions()
@@ -174,16 +190,21 @@ def run_trap(ctx, drv, case):
     n = len(pts)
     ok = True
     tags = {"family": "trapezoid", "boundary": bd, "modified": md, "n": n}
+    # (the 4-point formula is coded as (b - a) * ((a + b) / 2 - x1) / (x2 - x1) since the fix "modified 4-point weight without
+    # cancellation": no extra rounding allowance is needed any more, also far from the origin)
+    canc = 0.0
+    if grid is not None:
+        tags["reused_object"] = True
 
     def corr(obs, impl, model):
         nonlocal ok
         ok = False
-        ctx.corr_break("C09/" + obs, case, {"impl": str(impl)[:400], "model": str(model)[:400]})
+        ctx.corr_break("C09/" + obs, rc, {"impl": str(impl)[:400], "model": str(model)[:400]})
 
     # ---- implementation
     impl = None
     try:
-        g = GlobalTrapezoidalGrid([float(a)], [float(b)], boundary=bd, modified_basis=md)
+        g = grid if grid is not None else GlobalTrapezoidalGrid([float(a)], [float(b)], boundary=bd, modified_basis=md)
         g.set_grid([list(ptsf)], [list(lv)])
         impl = ([float(x) for x in g.coordinate_array[0]], [float(x) for x in g.weights[0]], [int(x) for x in g.levels[0]])
     except (IndexError, AssertionError, ZeroDivisionError) as e:
@@ -209,7 +230,7 @@ def run_trap(ctx, drv, case):
         # an exception on a well-formed refinement-tree grid is a violation of the property (it promises a value)
         if impl[0] == "err" and case.get("wellformed"):
             ok = False
-            ctx.violation("trap-exception", dict(tags, exc=impl[1]), case, {"error": impl[1]})
+            ctx.violation("trap-exception", dict(tags, exc=impl[1]), rc, {"error": impl[1]})
         return ok
     ic, iw, il = impl
     mc, mw, ml = model
@@ -224,7 +245,7 @@ def run_trap(ctx, drv, case):
         for k in range(len(iw)):
             if F(iw[k]) != mw[k]:
                 exact_ok = False
-                if not close(iw[k], mw[k], TOL, scale):
+                if not close(iw[k], mw[k], TOL, scale) and abs(iw[k] - float(mw[k])) > canc:
                     corr("weights", iw, [str(x) for x in mw])
                     break
     ctx.count("weights_exact" if exact_ok else "weights_rounded")
@@ -233,11 +254,11 @@ def run_trap(ctx, drv, case):
         raw = [float(x) for x in GlobalTrapezoidalGrid.compute_weights(list(ptsf), float(a), float(b), md)]
         raw2 = [float(x) for x in g.compute_1D_quad_weights(list(ptsf), float(a), float(b), 0, grid_levels_1D=[7] * n)]
         rawm = parse_list(drv.ask("cw %d %s %s %s" % (md, frac_str(a), frac_str(b), fvec(ptsq))))
-        if len(raw) != len(rawm) or any(not close(raw[k], rawm[k], TOL, float(b - a)) for k in range(len(raw))):
+        if len(raw) != len(rawm) or any(not close(raw[k], rawm[k], TOL, float(b - a)) and abs(raw[k] - float(rawm[k])) > canc for k in range(len(raw))):
             corr("compute_weights", raw, [str(x) for x in rawm])
         if raw != raw2:
             ok = False
-            ctx.violation("trap-level-dependence", tags, case, {"compute_weights": raw, "with_levels": raw2})
+            ctx.violation("trap-level-dependence", tags, rc, {"compute_weights": raw, "with_levels": raw2})
     except Exception as e:
         corr("compute_weights-exception", repr(e), "")
     # ---- oracle on the implementation's own output
@@ -246,7 +267,7 @@ def run_trap(ctx, drv, case):
     want_coords = ptsq if bd else ptsq[1:-1]
     if coords != want_coords:
         ok = False
-        ctx.violation("trap-points", tags, case, {"coords": ic, "expected": [float(x) for x in want_coords]})
+        ctx.violation("trap-points", tags, rc, {"coords": ic, "expected": [float(x) for x in want_coords]})
         return ok
     vals = [F(v) for v in case["vals"]][:len(coords)]
     seen = {}
@@ -263,20 +284,23 @@ def run_trap(ctx, drv, case):
         spec = pl_extrap(ptsq, vals)
     vscale = float(b - a) * max([1.0] + [abs(float(v)) for v in vals])
     terms = sum((abs(w * v) for w, v in zip(W, vals)), F(0))
+    if canc:
+        terms = float(terms) + 1e11 * canc * sum(abs(float(v)) for v in vals)       # `close` multiplies terms by 1e-11
+        ctx.count("mod4_formula_cancellation_%s" % ("far" if is_far(a, b) else "near"))
     if md and not spans:
         # the modified weights are built from the domain ends a, b: the clause speaks of grids that start at a and end at b
         ctx.count("malformed_modified_grid_not_spanning_domain")
         return ok
     if not close(s, spec, TOL, vscale, terms):
         ok = False
-        ctx.violation("trap-pl-integral", tags, case, {"sum_w_f": float(s), "pl_integral": float(spec)})
+        ctx.violation("trap-pl-integral", tags, rc, {"sum_w_f": float(s), "pl_integral": float(spec)})
     # the same through grid.integrate and through the model
     try:
         tab = Table([{float(c): float(v) for c, v in zip(ic, vals)}])
         iv = scalar(g.integrate(tab, [max(lv) if lv else 0], [float(a)], [float(b)]))
         if not close(iv, spec, TOL, vscale, terms):
             ok = False
-            ctx.violation("trap-integrate", tags, case, {"integrate": iv, "pl_integral": float(spec)})
+            ctx.violation("trap-integrate", tags, rc, {"integrate": iv, "pl_integral": float(spec)})
         mv = parse_frac(drv.ask("integ %d %d %s %s %s %s" % (bd, md, frac_str(a), frac_str(b), fvec(ptsq), fvec(vals))))
         if not close(iv, mv, TOL, vscale, terms):
             corr("integrate", iv, str(mv))
@@ -288,7 +312,7 @@ def run_trap(ctx, drv, case):
     except Exception as e:
         if wf:
             ok = False
-            ctx.violation("trap-exception", dict(tags, exc=type(e).__name__), case, {"integrate raised": repr(e)[:300]})
+            ctx.violation("trap-exception", dict(tags, exc=type(e).__name__), rc, {"integrate raised": repr(e)[:300]})
         else:
             ctx.count("malformed_integrate_" + type(e).__name__)
             return ok
@@ -300,43 +324,44 @@ def run_trap(ctx, drv, case):
         for k in (0, 1):
             m = sum((w * c ** k for w, c in zip(W, coords)), F(0))
             mscale = float(b - a) * max(1.0, abs(float(a)), abs(float(b))) ** k
-            mterms = sum((abs(w * c ** k) for w, c in zip(W, coords)), F(0))
+            mterms = float(sum((abs(w * c ** k) for w, c in zip(W, coords)), F(0))) + 1e11 * canc * sum(abs(float(c)) ** k for c in coords)
             if not close(m, moment(ptsq[0], ptsq[-1], k), TOL, mscale, mterms):
                 ok = False
-                ctx.violation("trap-linear-exact", dict(tags, degree=k), case, {"moment": float(m), "exact": float(moment(ptsq[0], ptsq[-1], k))})
+                ctx.violation("trap-linear-exact", dict(tags, degree=k), rc, {"moment": float(m), "exact": float(moment(ptsq[0], ptsq[-1], k))})
             iv = scalar(g.integrate(Mono([k]), [0], [float(a)], [float(b)])) if spans else moment(a, b, k)
             if not close(iv, moment(a, b, k), TOL, mscale, mterms):
                 ok = False
-                ctx.violation("trap-linear-exact", dict(tags, degree=k, via="integrate"), case, {"integrate": iv, "exact": float(moment(a, b, k))})
+                ctx.violation("trap-linear-exact", dict(tags, degree=k, via="integrate"), rc, {"integrate": iv, "exact": float(moment(a, b, k))})
     elif md:
         ctx.count("mod3_offcentre_single_interior_point")   # no one-point rule is exact for degree 1 there (theorem modTrap_three)
         if not close(sum(W, F(0)), b - a, TOL, float(b - a), sum((abs(w) for w in W), F(0))):
             ok = False
-            ctx.violation("trap-linear-exact", dict(tags, degree=0), case, {"sum": float(sum(W, F(0)))})
+            ctx.violation("trap-linear-exact", dict(tags, degree=0), rc, {"sum": float(sum(W, F(0)))})
     if not md and any(w < 0 for w in W):
         ok = False
-        ctx.violation("trap-nonneg", tags, case, {"weights": iw})
+        ctx.violation("trap-nonneg", tags, rc, {"weights": iw})
     # level independence: same points, other level list
     try:
         g2 = GlobalTrapezoidalGrid([float(a)], [float(b)], boundary=bd, modified_basis=md)
         g2.set_grid([list(ptsf)], [list(case["levels2"])])
         if [float(x) for x in g2.weights[0]] != iw or [float(x) for x in g2.coordinate_array[0]] != ic:
             ok = False
-            ctx.violation("trap-level-dependence", tags, case, {"weights": iw, "weights_other_levels": [float(x) for x in g2.weights[0]]})
+            ctx.violation("trap-level-dependence", tags, rc, {"weights": iw, "weights_other_levels": [float(x) for x in g2.weights[0]]})
         mo = parse_setgrid(drv.ask("setgrid %d %d %s %s %s %s" % (bd, md, frac_str(a), frac_str(b), fvec(ptsq), ivec(case["levels2"]))))
         if mo[0] == "err" or mo[1] != mw:
             corr("level-independence(model)", "", str(mo)[:200])
     except Exception as e:
         ok = False
-        ctx.violation("trap-level-dependence", dict(tags, exc=type(e).__name__), case, {"raised": repr(e)[:300]})
+        ctx.violation("trap-level-dependence", dict(tags, exc=type(e).__name__), rc, {"raised": repr(e)[:300]})
     return ok
 
 
-def run_trap2d(ctx, drv, case):
+def run_trap2d(ctx, drv, case, grid=None, report=None):
     """dim 2: tensor weights and products of linear monomials"""
     import numpy as np
     from sparseSpACE.Grid import GlobalTrapezoidalGrid
     Table, Mono = make_functions()
+    rc = report if report is not None else case
     bd, md = bool(case["boundary"]), bool(case["modified"])
     dims = case["dims"]
     a = [F(d["a"]) for d in dims]
@@ -346,19 +371,19 @@ def run_trap2d(ctx, drv, case):
     tags = {"family": "trapezoid", "boundary": bd, "modified": md, "dim": 2}
     ok = True
     try:
-        g = GlobalTrapezoidalGrid([float(x) for x in a], [float(x) for x in b], boundary=bd, modified_basis=md)
+        g = grid if grid is not None else GlobalTrapezoidalGrid([float(x) for x in a], [float(x) for x in b], boundary=bd, modified_basis=md)
         g.set_grid([list(p) for p in ptsf], lv)
         pw = g.get_points_and_weights()
         P = [tuple(float(c) for c in p) for p in pw[0]]
         Wt = [float(w) for w in pw[1]]
     except Exception as e:
-        ctx.violation("trap-exception", dict(tags, exc=type(e).__name__), case, {"raised": repr(e)[:300]})
+        ctx.violation("trap-exception", dict(tags, exc=type(e).__name__), rc, {"raised": repr(e)[:300]})
         return False
     mods = []
     for d in range(2):
         m = parse_setgrid(drv.ask("setgrid %d %d %s %s %s %s" % (bd, md, frac_str(a[d]), frac_str(b[d]), fvec([F(x) for x in ptsf[d]]), ivec(lv[d]))))
         if m[0] == "err":
-            ctx.corr_break("C09/tensor-model-error", case, {"model": m})
+            ctx.corr_break("C09/tensor-model-error", rc, {"model": m})
             return False
         mods.append(m)
     mp = [(float(x), float(y)) for x in mods[0][0] for y in mods[1][0]]
@@ -366,7 +391,7 @@ def run_trap2d(ctx, drv, case):
     scale = float((b[0] - a[0]) * (b[1] - a[1]))
     if P != mp or len(Wt) != len(mw) or any(not close(Wt[k], mw[k], TOL, scale) for k in range(len(mw))):
         ok = False
-        ctx.corr_break("C09/tensor-points-weights", case, {"impl": str(list(zip(P, Wt)))[:300], "model": str(list(zip(mp, [float(x) for x in mw])))[:300]})
+        ctx.corr_break("C09/tensor-points-weights", rc, {"impl": str(list(zip(P, Wt)))[:300], "model": str(list(zip(mp, [float(x) for x in mw])))[:300]})
     if bd or (md and min(len(p) for p in ptsf) >= 4):
         for kx in (0, 1):
             for ky in (0, 1):
@@ -375,7 +400,7 @@ def run_trap2d(ctx, drv, case):
                 sc = scale * max(1.0, *[abs(float(x)) for x in a + b]) ** 2
                 if not close(iv, ex, TOL, sc):
                     ok = False
-                    ctx.violation("trap-linear-exact", dict(tags, degree=kx + ky), case, {"integrate": iv, "exact": float(ex), "monomial": [kx, ky]})
+                    ctx.violation("trap-linear-exact", dict(tags, degree=kx + ky), rc, {"integrate": iv, "exact": float(ex), "monomial": [kx, ky]})
     return ok
 
 
@@ -402,7 +427,15 @@ def bspline_mod_regime(weighted, L, p):
     return "regular"
 
 
-def run_family(ctx, case):
+def family_tol(fam, p, weighted, maxlevel):
+    """1e-9, except where the n x n hierarchisation solve is ill conditioned: B-splines of order >= 5 on non-dyadic trees deeper than
+    level 6 (neighbouring cells differing by factors up to 4^7); measured rounding there reaches 6e-8, elsewhere <= 2e-12"""
+    if fam == "bspline" and p >= 5 and weighted and maxlevel >= 7:
+        return 1e-6
+    return TOL_HIER
+
+
+def run_family(ctx, case, grid=None, report=None):
     """families without exact model: oracle only"""
     import numpy as np
     from sparseSpACE import Grid as G
@@ -418,19 +451,27 @@ def run_family(ctx, case):
     L = min(complete_level(l) for l in lv)
     weighted = bool(case.get("weighted"))
     tags = {"family": fam, "p": p, "boundary": bd, "modified": md, "dim": dim}
+    nnls_opt, split_opt = bool(case.get("do_nnls", 0)), bool(case.get("split_up", 1))     # GlobalHighOrderGrid options
+    if fam == "highorder" and (nnls_opt or not split_opt):
+        tags["do_nnls"], tags["split_up"] = nnls_opt, split_opt
     af, bf = [float(x) for x in a], [float(x) for x in b]
     ok = True
+    rc = report if report is not None else case
+    if grid is not None:
+        tags["reused_object"] = True
 
     def viol(probe, t, detail):
         # GlobalHighOrderGrid with the modified basis fails in several ways (exceptions, garbage values): one probe id
         if fam == "highorder" and md:
             t = dict(t, kind=probe)
             probe = "highorder-modified"
-        ctx.violation(probe, t, case, detail)
+        ctx.violation(probe, t, rc, detail)
 
     try:
-        if fam == "highorder":
-            g = G.GlobalHighOrderGrid(af, bf, boundary=bd, modified_basis=md)
+        if grid is not None:
+            g = grid
+        elif fam == "highorder":
+            g = G.GlobalHighOrderGrid(af, bf, boundary=bd, modified_basis=md, do_nnls=nnls_opt, split_up=split_opt)
         elif fam == "lagrange":
             g = G.GlobalLagrangeGrid(af, bf, boundary=bd, modified_basis=md, p=p)
         elif fam == "bspline":
@@ -448,14 +489,17 @@ def run_family(ctx, case):
         if fam == "highorder" and dim == 1:
             # the degree the code itself claims for the weights it returns
             w0, d0 = g.get_1D_weights_and_order(list(ptsf[0]), af[0], bf[0], list(lv[0]))
-            w1, d1 = g.recursive_splitting3(list(ptsf[0]), af[0], bf[0], d0, list(lv[0])) if len(ptsf[0]) > 1 else (w0, d0)
+            if split_opt and len(ptsf[0]) > 1 and (len(ptsf[0]) > 3 or bd):       # the condition of compute_1D_quad_weights
+                w1, d1 = g.recursive_splitting3(list(ptsf[0]), af[0], bf[0], d0, list(lv[0]))
+            else:
+                w1, d1 = w0, d0
             w1 = list(w1) if bd else list(w1)[1:-1]
             if [float(x) for x in w1] != [float(x) for x in g.weights[0]]:
                 ok = False
                 viol("family-weights-observable", tags, {"recursive_splitting3": [float(x) for x in w1], "weights": [float(x) for x in g.weights[0]]})
             maxdeg = max(1, min(int(d1), 7))
-            ctx.count("highorder_claimed_degree_%d" % maxdeg)
-            if case.get("uniform") and bd and not md:
+            ctx.count("highorder%s%s_claimed_degree_%d" % ("_nnls" if nnls_opt else "", "" if split_opt else "_nosplit", maxdeg))
+            if case.get("uniform") and bd and not md and not nnls_opt:
                 # 'enough points' for the moment-matching rule (max_degree = 5): a uniform complete tree reaches
                 # degree 2 with 3 points and the full order 5 with >= 5 points
                 need = 2 if len(ptsf[0]) == 3 else 5
@@ -464,23 +508,26 @@ def run_family(ctx, case):
                 ok = False
                 viol("family-nonneg", tags, {"weights": [float(x) for x in g.weights[0]]})
         levelvec = [max(l) for l in lv]
+        tolh = family_tol(fam, p, weighted, max(levelvec))
         worst = None
         for k in range(maxdeg + 1):
             monos = [[k]] if dim == 1 else ([[k, 0], [k, 1]] if k <= 1 else [])
             for ks in monos:
-                iv = scalar(g.integrate(Mono(ks), levelvec, af, bf))
+                far = any(is_far(a[d], b[d]) for d in range(dim))
+                sh = [a[d] if far else F(0) for d in range(dim)]      # exactness for degree <= p is translation invariant
+                iv = scalar(g.integrate(Mono(ks, [float(x) for x in sh]), levelvec, af, bf))
                 ex = F(1)
                 for d in range(dim):
-                    ex *= moment(a[d], b[d], ks[d])
+                    ex *= moment(a[d] - sh[d], b[d] - sh[d], ks[d])
                 vol = 1.0
                 for d in range(dim):
                     vol *= float(b[d] - a[d])
-                sc = vol * max(1.0, *[abs(x) for x in af + bf]) ** sum(ks)
+                sc = vol * max(1.0, *[abs(float(x - sh[d])) for d in range(dim) for x in (a[d], b[d])]) ** sum(ks)
                 rel = abs(iv - float(ex)) / max(1.0, abs(float(ex)), sc)
                 key = "max_rel_err_%s%s" % (fam, "_weighted" if weighted else "")
-                if rel <= TOL_HIER and rel > ctx.extra.get(key, 0.0):
+                if rel <= tolh and rel > ctx.extra.get(key, 0.0):
                     ctx.extra[key] = rel
-                if not close(iv, ex, TOL_HIER, sc):
+                if not close(iv, ex, tolh, sc):
                     worst = (ks, iv, float(ex))
                     deg = sum(ks)
                     if deg <= 1:
@@ -497,6 +544,24 @@ def run_family(ctx, case):
             if worst:
                 break
         ctx.count("family_%s_exact_to_%d" % (fam, maxdeg))
+        if grid is not None and not worst and dim == 1 and fam in ("highorder", "lagrange", "bspline"):
+            # the re-used object against a fresh one on the same grid: weights and the integral of a non-polynomial table function
+            if fam == "highorder":
+                g2 = G.GlobalHighOrderGrid(af, bf, boundary=bd, modified_basis=md, do_nnls=nnls_opt, split_up=split_opt)
+            elif fam == "lagrange":
+                g2 = G.GlobalLagrangeGrid(af, bf, boundary=bd, modified_basis=md, p=p)
+            else:
+                g2 = G.GlobalBSplineGrid(af, bf, boundary=bd, modified_basis=md, p=p)
+            g2.set_grid([list(x) for x in ptsf], [list(x) for x in lv])
+            w1 = [float(x) for x in g.weights[0]]
+            w2 = [float(x) for x in g2.weights[0]]
+            tabv = {float(c): float(((7 * i) % 11) - 5) / 4.0 for i, c in enumerate(g.coordinate_array[0])}
+            i1 = scalar(g.integrate(Table([tabv]), levelvec, af, bf))
+            i2 = scalar(g2.integrate(Table([tabv]), levelvec, af, bf))
+            vol = float(b[0] - a[0])
+            if w1 != w2 or not close(i1, i2, tolh, 4.0 * vol):
+                ok = False
+                viol("family-reused-vs-fresh", tags, {"weights_reused": w1[:12], "weights_fresh": w2[:12], "integrate_reused": i1, "integrate_fresh": i2})
     except Exception as e:
         if fam == "simpson":
             ctx.count("simpson_observed_" + type(e).__name__)   # outside the anchored families: recorded only
@@ -508,7 +573,7 @@ def run_family(ctx, case):
 
 # ------------------------------------------------------------------------------------------------ case generation
 def case_dim(rng, n, weighted, grade, maxdepth, dom=None):
-    a, b = dom if dom else rng.choice(DOMAINS)
+    a, b = dom if dom else pick_domain(rng)
     pts, lv = gen_tree(rng, a, b, n, weighted, grade, maxdepth)
     return {"a": frac_str(a), "b": frac_str(b), "pts": [frac_str(x) for x in pts], "levels": lv}
 
@@ -571,7 +636,7 @@ def gen_malformed(rng):
 FAMILY_CONFIGS = (
     [("highorder", 0, 1, 0)] * 4 + [("highorder", 0, 0, 1)]
     + [("lagrange", p, 1, 0) for p in (1, 2, 2, 3, 3, 5)] + [("lagrange", 2, 0, 1)]
-    + [("bspline", p, 1, 0) for p in (1, 3, 3, 5)] + [("bspline", p, 0, 1) for p in (1, 3, 3, 5)]
+    + [("bspline", p, 1, 0) for p in (1, 3, 3, 5, 7, 7, 9)] + [("bspline", p, 0, 1) for p in (1, 3, 3, 5)]
     + [("simpson", 0, 1, 0)]
 )
 
@@ -580,7 +645,7 @@ def gen_family_case(rng, thorough):
     fam, p, bd, md = rng.choice(FAMILY_CONFIGS)
     weighted = rng.random() < 0.3
     if fam == "highorder" and bd and rng.random() < 0.3:
-        dom = rng.choice(DOMAINS)
+        dom = pick_domain(rng)
         L = rng.randint(1, 5)
         n0 = 2 ** L + 1
         lv = [0] * n0
@@ -590,14 +655,18 @@ def gen_family_case(rng, thorough):
                 lv[j] = l
         pts = [dom[0] + (dom[1] - dom[0]) * F(i, n0 - 1) for i in range(n0)]
         return {"kind": "family", "family": fam, "p": 0, "boundary": 1, "modified": 0, "weighted": 0, "uniform": 1,
+                "do_nnls": int(rng.random() < 0.3), "split_up": int(rng.random() < 0.7),
                 "dims": [{"a": frac_str(dom[0]), "b": frac_str(dom[1]), "pts": [frac_str(x) for x in pts], "levels": lv}]}
     dim = 2 if (rng.random() < 0.12 and fam in ("lagrange", "highorder", "bspline") and not md) else 1
     dims = []
     for d in range(dim):
-        if rng.random() < 0.45:
+        high = fam == "bspline" and p >= 7 and not md
+        if rng.random() < (0.8 if high else 0.45):
             # complete down to some level, then graded
             L = rng.choice([1, 2, 2, 3, 3, 4] if dim == 1 else [1, 2, 2])
-            dom = rng.choice(DOMAINS)
+            if high and dim == 1:
+                L = bspline_required_level(p)          # 3 for p = 7, 4 for p = 9: the order clause applies
+            dom = pick_domain(rng)
             n0 = 2 ** L + 1
             pts = [dom[0] + (dom[1] - dom[0]) * F(i, n0 - 1) for i in range(n0)]
             lv = [0] * n0
@@ -608,7 +677,7 @@ def gen_family_case(rng, thorough):
             if weighted:
                 # the same tree shape with weighted midpoints
                 pts, lv = weighted_full(rng, dom[0], dom[1], L)
-            extra = rng.randint(0, 8 if dim == 1 else 2)
+            extra = rng.randint(0, (4 if high else 8) if dim == 1 else 2)
             pl = list(zip(pts, lv))
             for _ in range(extra):
                 cells = list(range(len(pl) - 1))
@@ -622,10 +691,18 @@ def gen_family_case(rng, thorough):
             dims.append({"a": frac_str(dom[0]), "b": frac_str(dom[1]), "pts": [frac_str(x) for x, _ in pl], "levels": [l for _, l in pl]})
         else:
             n = rng.randint(3, 24 if dim == 1 else 6)
+            dom = pick_domain(rng)
+            grade, maxdepth = rng.choice([0.0, 0.3, 0.7]), 9
+            if is_far(dom[0], dom[1]) and dim == 1:
+                # far from the origin: strongly graded trees of depth 7-10 (the spacing falls below |x| * 1e-5)
+                n, grade, maxdepth = rng.randint(9, 20), rng.choice([0.9, 0.97]), 10
             if fam == "bspline" and p >= 5:
                 n = min(n, 16)
-            dims.append(case_dim(rng, n, weighted, rng.choice([0.0, 0.3, 0.7]), 9))
-    return {"kind": "family", "family": fam, "p": p, "boundary": bd, "modified": md, "weighted": int(weighted), "dims": dims}
+            dims.append(case_dim(rng, n, weighted, grade, maxdepth, dom=dom))
+    case = {"kind": "family", "family": fam, "p": p, "boundary": bd, "modified": md, "weighted": int(weighted), "dims": dims}
+    if fam == "highorder":
+        case["do_nnls"], case["split_up"] = int(rng.random() < 0.4), int(rng.random() < 0.7)
+    return case
 
 
 def weighted_full(rng, a, b, L):
@@ -641,9 +718,179 @@ def weighted_full(rng, a, b, L):
     return [x for x, _ in pl], [l for _, l in pl]
 
 
+def gen_order(rng, n, grade, maxdepth):
+    """split order of a refinement tree (which cell is split, in sequence) -- the SHAPE of the tree, i.e. its level labels"""
+    lv = [0, 0]
+    order = []
+    guard = 0
+    while len(lv) < n and guard < 10 * n:
+        guard += 1
+        cells = list(range(len(lv) - 1))
+        depth = [max(lv[i], lv[i + 1]) for i in cells]
+        cand = [k for k in cells if depth[k] + 1 <= maxdepth]
+        if not cand:
+            break
+        if rng.random() < grade:
+            m = max(depth[k] for k in cand)
+            i = rng.choice([k for k in cand if depth[k] == m])
+        else:
+            i = rng.choice(cand)
+        order.append(i)
+        lv.insert(i + 1, depth[i] + 1)
+    return order
+
+
+def build_from_order(rng, a, b, order, weighted):
+    """the tree with the given split order; weighted: every split at its own random ratio (same level labels, other points)"""
+    pts = [(a, 0), (b, 0)]
+    for i in order:
+        t = rng.choice(RATIOS) if weighted else F(1, 2)
+        l = max(pts[i][1], pts[i + 1][1]) + 1
+        pts.insert(i + 1, (pts[i][0] + t * (pts[i + 1][0] - pts[i][0]), l))
+    return [p for p, _ in pts], [l for _, l in pts]
+
+
+def gen_order_directed(rng, n, side, maxdepth):
+    """split order with exactly n points (if the depth allows), graded towards a (side 'L'), towards b ('R') or undirected ('M')"""
+    lv = [0, 0]
+    order = []
+    guard = 0
+    while len(lv) < n and guard < 20 * n:
+        guard += 1
+        cells = list(range(len(lv) - 1))
+        depth = [max(lv[i], lv[i + 1]) for i in cells]
+        cand = [k for k in cells if depth[k] + 1 <= maxdepth]
+        if not cand:
+            break
+        r = rng.random()
+        if side == "L" and r < 0.6:
+            i = cand[0]
+        elif side == "R" and r < 0.6:
+            i = cand[-1]
+        else:
+            i = rng.choice(cand)
+        order.append(i)
+        lv.insert(i + 1, depth[i] + 1)
+    return order
+
+
+def gen_history_equal_size(rng, thorough):
+    """hierarchical families: ONE grid object, successive refinement trees with the SAME number (15-33) of points but different
+    shapes (graded towards a, towards b, other split weights), then the first tree again -- whatever the object or its
+    hierarchisation remembers per point count / per dimension must not leak from one tree into the next"""
+    fam, p = rng.choice([("lagrange", 1), ("lagrange", 2), ("lagrange", 3), ("bspline", 1), ("bspline", 3), ("highorder", 0)])
+    dom = pick_domain(rng)
+    n = rng.randint(15, 33 if fam != "bspline" else 25)
+    sides = ["L", "R", "M"]
+    rng.shuffle(sides)
+    trees = []
+    for side in sides:
+        order = gen_order_directed(rng, n, side, 10)
+        weighted = (side == "M")
+        trees.append((side + ("-weighted" if weighted else "-dyadic"), build_from_order(rng, dom[0], dom[1], order, weighted=weighted)))
+    trees.append(("first-tree-again", trees[0][1]))
+    steps = []
+    for name, (pts, lv) in trees:
+        steps.append({"step": "equal-size-" + name,
+                      "dims": [{"a": frac_str(dom[0]), "b": frac_str(dom[1]), "pts": [frac_str(x) for x in pts], "levels": lv}]})
+    return {"kind": "history", "family": fam, "p": p, "boundary": 1, "modified": 0, "dim": 1, "equal_size": n,
+            "do_nnls": int(fam == "highorder" and rng.random() < 0.4), "split_up": int(fam != "highorder" or rng.random() < 0.7),
+            "a": frac_str(dom[0]), "b": frac_str(dom[1]), "steps": steps}
+
+
+def gen_history(rng, thorough):
+    """ONE grid object, several set_grid calls: same levels with different points (shared split order, other ratios), same points
+    with different levels, different trees; the library re-uses its grid object in exactly this way for all component grids"""
+    r = rng.random()
+    if r < 0.7:
+        fam, p, bd, md = ("trapezoid", 0) + rng.choice([(1, 0), (1, 0), (0, 0), (0, 1)])
+    else:
+        fam, p, bd, md = rng.choice([("highorder", 0, 1, 0), ("lagrange", 1, 1, 0), ("lagrange", 2, 1, 0), ("lagrange", 3, 1, 0),
+                                     ("bspline", 1, 1, 0), ("bspline", 3, 1, 0)])
+    dim = 2 if (fam == "trapezoid" and rng.random() < 0.2) else 1
+    dom = pick_domain(rng)
+    nmax = 14 if fam == "trapezoid" else 9
+    steps = []
+    order = gen_order(rng, rng.randint(3, nmax), rng.choice([0.0, 0.5, 0.9]), 9)
+    prev = None
+    for k in range(rng.randint(3, 6)):
+        kind = rng.choice(["same-shape", "same-shape", "same-points-new-levels", "fresh", "dyadic-shape"]) if k > 0 else "fresh"
+        if kind == "fresh":
+            order = gen_order(rng, rng.randint(3, nmax), rng.choice([0.0, 0.5, 0.9]), 9)
+        dims = []
+        for d in range(dim):
+            if kind == "same-points-new-levels" and prev is not None and fam == "trapezoid":
+                pts = [F(x) for x in prev[d]["pts"]]
+                lv = [rng.randint(0, 6) for _ in pts]
+            else:
+                pts, lv = build_from_order(rng, dom[0], dom[1], order, weighted=(kind != "dyadic-shape"))
+            n = len(pts)
+            dims.append({"a": frac_str(dom[0]), "b": frac_str(dom[1]), "pts": [frac_str(x) for x in pts], "levels": lv,
+                         "vals": [frac_str(F(rng.randint(-16, 16), rng.choice([1, 2, 4]))) for _ in range(n)],
+                         "levels2": [rng.randint(0, 9) for _ in range(n)]})
+        prev = dims
+        steps.append({"step": kind, "dims": dims})
+    return {"kind": "history", "family": fam, "p": p, "boundary": bd, "modified": md, "dim": dim,
+            "do_nnls": int(fam == "highorder" and rng.random() < 0.4), "split_up": int(fam != "highorder" or rng.random() < 0.7),
+            "a": frac_str(dom[0]), "b": frac_str(dom[1]), "steps": steps}
+
+
+def run_history(ctx, drv, case):
+    """every step runs the full single-grid check (model correspondence for the trapezoid, oracle clauses for all families) on
+    the SAME object; a replay stores the whole history"""
+    from sparseSpACE import Grid as G
+    fam, p, dim = case["family"], int(case["p"]), int(case["dim"])
+    bd, md = bool(case["boundary"]), bool(case["modified"])
+    a, b = float(F(case["a"])), float(F(case["b"]))
+    try:
+        if fam == "trapezoid":
+            g = G.GlobalTrapezoidalGrid([a] * dim, [b] * dim, boundary=bd, modified_basis=md)
+        elif fam == "highorder":
+            g = G.GlobalHighOrderGrid([a] * dim, [b] * dim, boundary=bd, modified_basis=md,
+                                      do_nnls=bool(case.get("do_nnls", 0)), split_up=bool(case.get("split_up", 1)))
+        elif fam == "lagrange":
+            g = G.GlobalLagrangeGrid([a] * dim, [b] * dim, boundary=bd, modified_basis=md, p=p)
+        else:
+            g = G.GlobalBSplineGrid([a] * dim, [b] * dim, boundary=bd, modified_basis=md, p=p)
+    except Exception as e:
+        ctx.violation("family-exception", {"family": fam, "modified": md, "boundary": bd, "exc": type(e).__name__}, case, {"constructor": repr(e)[:200]})
+        return False
+    ok = True
+    for k, st in enumerate(case["steps"]):
+        ctx.count("history_step_" + st["step"])
+        if fam == "trapezoid" and dim == 1:
+            d = st["dims"][0]
+            sub = dict(d, kind="trap", boundary=int(bd), modified=int(md), weighted=1, wellformed=1)
+            good = run_trap(ctx, drv, sub, grid=g, report=dict(case, failed_step=k))
+        elif fam == "trapezoid":
+            sub = {"kind": "trap2d", "boundary": int(bd), "modified": int(md), "dims": st["dims"]}
+            good = run_trap2d(ctx, drv, sub, grid=g, report=dict(case, failed_step=k))
+        else:
+            sub = {"kind": "family", "family": fam, "p": p, "boundary": int(bd), "modified": int(md), "weighted": int(st["step"] != "dyadic-shape"),
+                   "dims": st["dims"], "do_nnls": case.get("do_nnls", 0), "split_up": case.get("split_up", 1)}
+            good = run_family(ctx, sub, grid=g, report=dict(case, failed_step=k))
+        if not good:
+            ok = False
+            break
+    return ok
+
+
 def gen_trap2d(rng):
     bd, md = rng.choice([(1, 0), (0, 0), (0, 1)])
-    dims = [case_dim(rng, rng.randint(3, 7), rng.random() < 0.3, 0.5, 10) for _ in range(2)]
+    dom = pick_domain(rng)
+    farmod = bool(md) and is_far(dom[0], dom[1])     # modified 4-point formula far from 0: dyadic points only (exact doubles)
+    if rng.random() < 0.4 and not farmod:
+        # both dimensions on the same interval with the same level labels (shared split order) but different points
+        order = gen_order(rng, rng.randint(3, 7), 0.5, 10)
+        dims = []
+        for _ in range(2):
+            pts, lv = build_from_order(rng, dom[0], dom[1], order, weighted=True)
+            dims.append({"a": frac_str(dom[0]), "b": frac_str(dom[1]), "pts": [frac_str(x) for x in pts], "levels": lv})
+        return {"kind": "trap2d", "boundary": bd, "modified": md, "dims": dims, "shared_shape": 1}
+    dims = [case_dim(rng, rng.randint(3, 7), rng.random() < 0.3 and not farmod, 0.5, 10, dom=(dom if k == 0 or farmod else None)) for k in range(2)]
+    if md:
+        dims = [d if not is_far(F(d["a"]), F(d["b"])) or all(F(x).denominator & (F(x).denominator - 1) == 0 for x in d["pts"])
+                else case_dim(rng, len(d["pts"]), False, 0.5, 10, dom=(F(d["a"]), F(d["b"]))) for d in dims]
     return {"kind": "trap2d", "boundary": bd, "modified": md, "dims": dims}
 
 
@@ -669,6 +916,8 @@ def run_case(ctx, drv, case):
         return run_trap(ctx, drv, case)
     if k == "trap2d":
         return run_trap2d(ctx, drv, case)
+    if k == "history":
+        return run_history(ctx, drv, case)
     return run_family(ctx, case)
 
 
@@ -679,7 +928,13 @@ def run(ctx):
                 "with the Lean model (coordinates, levels, weights, raw compute_weights vector, error kind, integrate of a random value table) "
                 "and checked against the property clauses computed independently in Fractions; 8% malformed inputs (unsorted, wrong level "
                 "length, < 3 points, duplicates, both flags, domain mismatch); 2-D tensor cases; high-order / Lagrange / B-spline families "
-                "(p in 1,2,3,5) are checked by the oracle only (constants, linear, degree p when the tree is complete to the required level). "
+                "(Lagrange p in 1,2,3,5; B-spline p in 1,3,5,7,9 with trees complete to level ceil(log2(p+1)); GlobalHighOrderGrid with do_nnls on/off "
+                "and split_up on/off) are checked by the oracle only (constants, linear, degree p when the tree is complete to the required level); "
+                "object histories: ONE grid object re-used for 3-6 set_grid calls (same level labels with different points via a shared split "
+                "order with other ratios, same points with other levels, other trees; also 2-D grids whose two dimensions share interval and "
+                "level labels), every step checked like a single case (model, fresh object, plIntegral, linear exactness) for all families; "
+                "equal-size histories for the hierarchical / high-order families: 15-33 points, three trees of the SAME size graded towards a, "
+                "towards b, undirected with other split weights, then the first tree again, each step against exact moments and a fresh object. "
                 "A case is distinct by its full input; non-trivial if it has >= 4 points or is malformed")
     ctx.assumptions.append("GlobalHighOrderGrid / GlobalLagrangeGrid / GlobalBSplineGrid: no exact Lean model; validated by the oracle at %g" % TOL_HIER)
     ctx.assumptions.append("'enough points' for order p: tree complete to level max(1,p-1) (Lagrange: basis of level l has degree min(l+1,p)) resp. ceil(log2(p+1)) (B-spline: the code's own switch)")
@@ -688,12 +943,13 @@ def run(ctx):
     n_trap = 2500 if not thorough else 40000
     n_fam = 700 if not thorough else 12000
     n_2d = 100 if not thorough else 1500
-    budget = 95 if not thorough else 600
+    n_hist = 400 if not thorough else 5000
+    budget = 95 if not thorough else 540
     for case in deep_graded_cases():
         run_case(ctx, drv, case)
         ctx.count("deep_graded_m%d" % case["deep"])
         ctx.case(case, nontrivial=True)
-    plan = ["trap"] * n_trap + ["family"] * n_fam + ["trap2d"] * n_2d
+    plan = ["trap"] * n_trap + ["family"] * n_fam + ["trap2d"] * n_2d + ["history"] * n_hist
     rng.shuffle(plan)
     for idx, kind in enumerate(plan):
         if ctx.time_left(budget) < 0:
@@ -703,6 +959,8 @@ def run(ctx):
             case = gen_malformed(rng) if rng.random() < 0.08 else gen_trap_case(rng, thorough)
         elif kind == "trap2d":
             case = gen_trap2d(rng)
+        elif kind == "history":
+            case = gen_history_equal_size(rng, thorough) if rng.random() < 0.12 else gen_history(rng, thorough)
         else:
             case = gen_family_case(rng, thorough)
         try:
@@ -718,7 +976,10 @@ def run(ctx):
                 ctx.count("malformed_" + case["malformed"])
             nontrivial = len(case["pts"]) >= 4 or bool(case.get("malformed"))
         elif kind == "trap2d":
-            ctx.count("trap2d")
+            ctx.count("trap2d_shared_shape" if case.get("shared_shape") else "trap2d")
+            nontrivial = True
+        elif kind == "history":
+            ctx.count("history_%s_b%d_m%d_dim%d%s" % (case["family"], case["boundary"], case["modified"], case["dim"], "_equal_size" if case.get("equal_size") else ""))
             nontrivial = True
         else:
             ctx.count("family_%s_p%s_b%d_m%d" % (case["family"], case["p"], case["boundary"], case["modified"]))
